@@ -84,18 +84,19 @@ func contractServes(c *Contract, p string) bool {
 }
 
 type checkRun struct {
-	prop     string
-	tier     string
-	repo     string
-	seed     int64
-	results  []*FuncResult
-	items    []workItem
-	outside  []string
-	trusted  map[string]bool
-	funcs    []string
-	stale    string
-	extra    []extraCheck
-	notes    []string
+	prop    string
+	tier    string
+	repo    string
+	seed    int64
+	results []*FuncResult
+	items   []workItem
+	outside []string
+	trusted map[string]bool
+	funcs   []string
+	stale   string
+	extra   []extraCheck
+	notes   []string
+	cross   *crossResult
 }
 
 // extraCheck: engines other than the VC generator contribute obligations through this hook.
@@ -264,6 +265,11 @@ func cmdCheck(args []string) int {
 		run = gather(w, prop)
 		dischargeAll(run.items, timeoutMs, 16)
 		run.items = expandFailed(run.items, timeoutMs)
+		if *tier == "thorough" {
+			// second opinion: every SMT discharge is repeated by an independent solver on the unsliced query
+			xr := crossCheck(run.items, 20000, 16)
+			run.cross = &xr
+		}
 	}
 	run.tier, run.repo, run.seed = *tier, *repo, seed
 
@@ -465,20 +471,21 @@ func cmdCheck(args []string) int {
 		"property_id": prop, "tier": *tier, "seed": seed, "level": "proof",
 		"coverage": map[string]interface{}{
 			"obligations": nObl, "discharged": discharged,
-			"checker_cmd":  fmt.Sprintf("bin/govc check %s --tier %s", prop, *tier),
-			"trusted_base": trusted,
+			"checker_cmd":              fmt.Sprintf("bin/govc check %s --tier %s", prop, *tier),
+			"trusted_base":             trusted,
 			"functions_under_contract": nonNil(run.funcs),
-			"by_backend":   backend,
-			"solver_s":     round3(solverS),
-			"covers":       map[string]int{"expected": covers, "hit": coversHit},
-			"outside_subset": nonNil(run.outside),
-			"known_findings": known_,
-			"baseline_missing": nonNil(missing),
-			"samples":      samples,
-			"slowest":      slowest,
-			"stand_ins":    run.standIns(),
-			"notes":        nonNil(run.notes),
-			"explanation":  "every obligation is a verification condition generated from the go/ssa form of the function in /repo's working tree and its //@ contract; discharged = unsat of the negated VC by at least one of z3 4.8.12 / z3 5.1.0 / cvc5",
+			"by_backend":               backend,
+			"solver_s":                 round3(solverS),
+			"covers":                   map[string]int{"expected": covers, "hit": coversHit},
+			"outside_subset":           nonNil(run.outside),
+			"known_findings":           known_,
+			"baseline_missing":         nonNil(missing),
+			"samples":                  samples,
+			"slowest":                  slowest,
+			"cross_check":              crossEvidence(run.cross),
+			"stand_ins":                run.standIns(),
+			"notes":                    nonNil(run.notes),
+			"explanation":              "every obligation is a verification condition generated from the go/ssa form of the function in /repo's working tree and its //@ contract; discharged = unsat of the negated VC by at least one of z3 4.8.12 / z3 5.1.0 / cvc5",
 		},
 		"assumptions": append(trusted, globalAssumptions...),
 		"wall_s":      round3(time.Since(t0).Seconds()),
@@ -600,7 +607,6 @@ func (w *World) extraObligations(run *checkRun) {
 	}
 }
 
-
 // expandFailed replaces failed coarse obligations by their finer expansion.
 func expandFailed(items []workItem, timeoutMs int) []workItem {
 	var extra []workItem
@@ -618,4 +624,11 @@ func expandFailed(items []workItem, timeoutMs int) []workItem {
 		dischargeAll(extra, timeoutMs, 16)
 	}
 	return append(out, extra...)
+}
+
+func crossEvidence(x *crossResult) interface{} {
+	if x == nil {
+		return "not run (thorough tier only): every SMT discharge repeated by a second solver on the unsliced query"
+	}
+	return map[string]interface{}{"obligations_rechecked": x.checked, "second_solver_agrees": x.agree, "second_solver_undecided": x.undecided, "contradictions": nonNil(x.contradictions)}
 }
